@@ -29,7 +29,8 @@ PROPERTY = 'C04'
 LEVEL = 'exploration'
 RULE = (
     'sdc clause: exhaustive node family x quadrature type x M (<=4 quick, <=7 thorough) x preconditioner names (implicit / explicit / IMEX pairs with 3 splittings) '
-    'x k in {1..p+2} x end-point mode; rk clause: every RungeKutta / RungeKuttaIMEX class found by reflection. '
+    'x k in {1..p+2} x end-point mode; rk clause: every RungeKutta / RungeKuttaIMEX class found by reflection; nystrom clause: RKN and Velocity_Verlet one-step maps on the one-particle Penning trap '
+    '(field strengths, optional time-dependent driving field, start times) against the matrix exponential, local order from two step sizes. '
     'Non-trivial = k >= 2 and min(k,p) >= 2 (sdc) / order >= 2 (rk); distinct = configuration tuple. Coefficients whose rounding term eps*max|R|/rho^m exceeds 2% of 1/m! are counted as unresolved and not judged.'
 )
 ASSUMPTIONS = [
@@ -261,6 +262,87 @@ def rk_grid(tier):
     return out
 
 
+# ----------------------------------------------------------------------------------------------- Runge-Kutta-Nystrom sweepers
+NYSTROM_ORDER = {'RKN': 4, 'Velocity_Verlet': 2}
+
+
+def _nystrom_step(cls, h, case, drive):
+    """linear one-step map (6x6 matrix and, with a driving field, the inhomogeneous part) of the real sweeper on the one-particle Penning trap"""
+    from checks import c02_extra as X
+
+    c = {'nparts': 1, 'omega_B': case['omega_B'], 'omega_E': case['omega_E'], 'sig': 0.1, 'dt': h, 't0': case['t0'], 'drive': drive}
+    cols = []
+    for k in range(7):
+        step, L = X._trap_level(c, cls, {})
+        e = np.zeros(6)
+        if k < 6:
+            e[k] = 1.0
+        L.status.time = case['t0']
+        L.u[0] = X._part(L.prob, e[:3].reshape(3, 1), e[3:].reshape(3, 1))
+        L.sweep.predict()
+        L.status.sweep = 1
+        L.sweep.update_nodes()
+        L.sweep.compute_end_point()
+        cols.append(np.concatenate([np.asarray(L.uend.pos).ravel(), np.asarray(L.uend.vel).ravel()]))
+    b = cols[6]
+    return np.array([cols[k] - b for k in range(6)]).T, b
+
+
+def _nystrom_exact(h, case, drive):
+    import scipy.linalg
+    from checks import c02_extra as X
+
+    K = case['omega_E'] ** 2 * np.diag([1.0, 1.0, -2.0])
+    C = X.cross_matrix(np.array([0.0, 0.0, case['omega_B']]))
+    A = np.block([[np.zeros((3, 3)), np.eye(3)], [K, C]])
+    if drive is None:
+        return scipy.linalg.expm(h * A), np.zeros(6)
+    # augment with (cos(w t), sin(w t)): z' = A z + [0; E_d] cos(w t)
+    Ed, w = np.array(drive[:3]), drive[3]
+    Aug = np.zeros((8, 8))
+    Aug[:6, :6] = A
+    Aug[3:6, 6] = Ed
+    Aug[6, 7] = -w
+    Aug[7, 6] = w
+    E = scipy.linalg.expm(h * Aug)
+    cs = np.array([np.cos(w * case['t0']), np.sin(w * case['t0'])])
+    return E[:6, :6], E[:6, 6:] @ cs
+
+
+def prop_nystrom(case, r):
+    from pySDC.implementations.sweeper_classes import Runge_Kutta_Nystrom as RKNmod
+
+    cls = getattr(RKNmod, case['cls'])
+    p = NYSTROM_ORDER[case['cls']]
+    drive = case['drive']
+    r.label(case['cls'], 'driven' if drive else 'autonomous', 'magnetic' if case['omega_B'] else 'electric-only')
+    r.nontrivial([case['cls'], bool(drive), case['omega_B'], case['omega_E']])
+    rate = max(case['omega_B'], case['omega_E'] * np.sqrt(2.0), drive[3] if drive else 0.0, 1.0)
+    errs = []
+    for h in (0.2 / rate, 0.1 / rate):
+        Mh, bh = _nystrom_step(cls, h, case, drive)
+        Me, be = _nystrom_exact(h, case, drive)
+        errs.append(max(np.abs(Mh - Me).max(), np.abs(bh - be).max()))
+    if errs[1] < 1e-13:
+        r.discard('error below rounding')
+        return
+    obs = np.log2(errs[0] / errs[1])
+    # local error O(h^(p+1)): halving h must gain at least p + 1 - 0.35 binary orders
+    r.check(obs >= p + 1 - 0.35, 'nystrom-order', f'{case["cls"]} driven={bool(drive)} omega_B={case["omega_B"]} omega_E={case["omega_E"]}: one-step errors {errs[0]:.3e} -> {errs[1]:.3e}, observed local order {obs:.2f} < {p + 1}')
+
+
+def nystrom_grid(tier):
+    out = []
+    for cls in NYSTROM_ORDER:
+        for wB in (0.0, 5.0, 25.0):
+            for wE in (1.0, 4.9):
+                for drive in (None, [0.3, -1.0, 0.5, 3.0], [1.0, 0.0, 2.0, 11.0]):
+                    for t0 in (0.0, 0.7):
+                        out.append({'cls': cls, 'omega_B': wB, 'omega_E': wE, 'drive': drive, 't0': t0})
+    return out
+
+
+
 def known_match(fid, clause, case, failure):
     return False
 
@@ -269,4 +351,5 @@ def clauses(tier):
     return [
         Clause('sdc-order', prop_sdc, enumerate=sdc_grid, exhaustive=True),
         Clause('rk-order', prop_rk, enumerate=rk_grid, exhaustive=True),
+        Clause('nystrom-order', prop_nystrom, enumerate=nystrom_grid, exhaustive=True),
     ]
